@@ -1,6 +1,7 @@
 package c13
 
 import (
+	"math"
 	"encoding/json"
 	"fmt"
 	"testing"
@@ -58,6 +59,8 @@ type shaperOp struct {
 	Lang     string    `json:"lang,omitempty"`
 	Size     int32     `json:"size,omitempty"` // fixed.Int26_6
 	Features []featDef `json:"features,omitempty"`
+	// FontFeatures is an empty non-nil slice instead of nil (only when Features is empty)
+	EmptyFeatures bool `json:"empty_features,omitempty"`
 	// cache_size
 	N int `json:"n,omitempty"`
 	// set_*
@@ -124,6 +127,9 @@ func (op shaperOp) input(face *font.Face) shaping.Input {
 		Text: copyRunes(op.Text), RunStart: op.RunStart, RunEnd: op.RunEnd,
 		Direction: di.Direction(op.Dir), Face: face, Size: fixed.Int26_6(op.Size),
 		Script: parseScript(op.Script), Language: language.Language(op.Lang),
+	}
+	if op.EmptyFeatures {
+		in.FontFeatures = []shaping.FontFeature{}
 	}
 	for _, f := range op.Features {
 		in.FontFeatures = append(in.FontFeatures, shaping.FontFeature{Tag: mustTag(f.Tag), Value: f.Value})
@@ -568,6 +574,30 @@ func TestPropShaper(t *testing.T) {
 			m.apply(shaperOp{Kind: "restore_coords", Slot: k, cfgOp: cfgOp{Saved: saved}})
 			m.apply(q)
 		})
+		weighted(actions, "edge_args", 1, func(rt *rapid.T) {
+			// an ordinary Shape with the font cache enabled, then the same call with ONE argument at the
+			// edge of its contract (sizes 0, 1/64, negative, overflowing; empty text; empty, reversed or
+			// out-of-range run, which Shape documents it clamps; empty non-nil features; ppem 0), then
+			// the ordinary call again: whatever the edge call does, it must do on a fresh shaper too,
+			// and it must leave nothing behind
+			if m.size == 0 {
+				m.apply(shaperOp{Kind: "cache_size", N: rapid.SampledFrom([]int{1, 2, 8}).Draw(rt, "n")})
+			}
+			q := drawShapeOp(rt, m)
+			m.apply(q)
+			m.flags["edge_args"] = true
+			e := edgeVariant(q, rapid.IntRange(0, len(edgeSizes)+edgeOthers-1).Draw(rt, "edge"))
+			if e.Kind == "set_ppem" {
+				m.apply(e)
+				m.apply(q)
+				return
+			}
+			m.apply(e)
+			if rapid.Bool().Draw(rt, "edgeTwice") {
+				m.apply(e)
+			}
+			m.apply(q)
+		})
 		weighted(actions, "cache_size", 1, func(rt *rapid.T) {
 			m.apply(shaperOp{Kind: "cache_size", N: rapid.SampledFrom([]int{0, 1, 2, 8}).Draw(rt, "n")})
 		})
@@ -667,6 +697,98 @@ func TestEnumShaperWrap(t *testing.T) {
 			}
 		}
 	}
+}
+
+// edgeSizes are Input.Size values (fixed.Int26_6) at and beyond the edge of what a size means.
+var edgeSizes = []int32{0, 1, -1, -64 * 3, 64 * (1 << 20), math.MaxInt32, math.MinInt32}
+
+const edgeOthers = 7
+
+// edgeVariant returns q with one argument replaced by edge value number k.
+func edgeVariant(q shaperOp, k int) shaperOp {
+	e := q
+	e.Text = copyRunes(q.Text)
+	if k < len(edgeSizes) {
+		e.Size = edgeSizes[k]
+		return e
+	}
+	switch k - len(edgeSizes) {
+	case 0: // empty text
+		e.Text, e.RunStart, e.RunEnd = nil, 0, 0
+	case 1: // empty run at the end
+		e.RunStart, e.RunEnd = len(e.Text), len(e.Text)
+	case 2: // empty run at the start
+		e.RunStart, e.RunEnd = 0, 0
+	case 3: // reversed bounds ("try to guess what the caller actually wanted")
+		e.RunStart, e.RunEnd = len(e.Text), 0
+	case 4: // out of range on both sides (clamped)
+		e.RunStart, e.RunEnd = -3, len(e.Text)+5
+	case 5: // empty but non-nil features
+		e.Features, e.EmptyFeatures = nil, true
+	default: // the face at ppem 0
+		return shaperOp{Kind: "set_ppem", Slot: q.Slot}
+	}
+	return e
+}
+
+// TestEnumShaperEdgeArgs walks every edge value deterministically: font cache on, an ordinary Shape,
+// the edge call (twice), the ordinary Shape again, the edge call on the sibling face.
+func TestEnumShaperEdgeArgs(t *testing.T) {
+	shard, nshards := ev.Shard()
+	idx := 0
+	for _, file := range []string{fRoboto, fAmiri, fCommissioner, fRvrn, fAlt1} {
+		pf := mustFont(t, fontRef{File: file})
+		n := len(pf.Runes)
+		if n > 5 {
+			n = 5
+		}
+		text := append([]rune(nil), pf.Runes[len(pf.Runes)/2:][:min(n, len(pf.Runes)-len(pf.Runes)/2)]...)
+		if file == fRoboto || file == fCommissioner {
+			text = []rune("AVfi To")
+		}
+		for _, size := range []int{1, 2} {
+			for k := 0; k < len(edgeSizes)+edgeOthers; k++ {
+				idx++
+				if idx%nshards != shard {
+					continue
+				}
+				m := newShaperMachine(t, []faceDef{{Font: pf.Ref}, {Font: pf.Ref}})
+				q := shaperOp{Kind: "shape", Slot: 0, Text: text, RunEnd: len(text), Script: scriptOf(text).String(), Lang: "en", Size: 16 * 64,
+					Dir: drawNaturalDir(text), Features: []featDef{{Tag: "kern", Value: 1}}}
+				e := edgeVariant(q, k)
+				m.apply(shaperOp{Kind: "cache_size", N: size})
+				m.apply(q)
+				m.apply(e)
+				if e.Kind == "shape" {
+					m.apply(e)
+				}
+				m.apply(q)
+				if e.Kind == "shape" {
+					e.Slot = 1
+					m.apply(e)
+				}
+				q.Slot = 1
+				m.apply(q)
+				m.flags["edge_args"] = true
+				m.finish()
+				ev.Label("shaper:enum_edge_arg_cases")
+			}
+		}
+	}
+}
+
+func drawNaturalDir(text []rune) uint8 {
+	if rtlScripts[scriptOf(text)] {
+		return uint8(di.DirectionRTL)
+	}
+	return uint8(di.DirectionLTR)
+}
+
+func min(a, b int) int {
+	if a < b {
+		return a
+	}
+	return b
 }
 
 func replayShaper(t *testing.T, raw json.RawMessage) {
